@@ -65,8 +65,10 @@ Definition find_method (cls dunder : str) : option (list str * str) :=
   | None => None
   | Some ms => (fix go (l : list (str * list str * str)) := match l with [] => None | (n, ps, r) :: l2 => if str_eqb n dunder then Some (ps, r) else go l2 end) ms
   end.
+(* List.__mul__ -> list[T_Value]: the substitution of T_Value by a union keeps the first member only *)
+Definition self_ty (self : ty) : ty := match self with TList (TUnion (t :: _)) => TList t | _ => self end.
 Definition ret_ty (ret : str) (self : ty) : ty :=
-  if str_eqb ret (s "Self") then self
+  if str_eqb ret (s "Self") then self_ty self
   else if str_eqb ret (s "int") then TB BInt else if str_eqb ret (s "float") then TB BFloat
   else if str_eqb ret (s "bool") then TB BBool else if str_eqb ret (s "str") then TB BStr else TUnknown.
 (* OperationTrait.try_operation *)
@@ -239,8 +241,9 @@ Fixpoint has_type (r : rty) (t : ty) {struct t} : bool :=
 Definition is_b (b : base) (t : option ty) : bool := match t with Some (TB b2) => base_eqb b b2 | _ => false end.
 Definition bit_andor (o : aop) : bool := match o with OAnd | OOr => true | _ => false end.
 (* `&` / `|` answered by bool's method although the other operand is not a bool *)
+Definition list_of_union (t : ty) : bool := match t with TList (TUnion _) => true | _ => false end.
 Definition excluded (l : ty) (o : aop) (r : ty) : bool :=
-  bit_andor o && ((is_b BBool (Some l) && negb (is_b BBool (Some r))) || (is_b BBool (Some r) && negb (is_b BBool (Some l)) && negb (is_b BInt (Some l)))).
+  list_of_union l || list_of_union r || bit_andor o && ((is_b BBool (Some l) && negb (is_b BBool (Some r))) || (is_b BBool (Some r) && negb (is_b BBool (Some l)) && negb (is_b BInt (Some l)))).
 Section Guard.
 Variable op_table : list (str * list (str * list str * str)).
 Variable operator_dunder : list (str * str).
